@@ -51,6 +51,15 @@ pub fn style_build(args: &[String]) -> String {
             }
         }
     }
+    if only.is_none() || only == Some("progress_chars") {
+        // progress characters of unequal width must be rejected when the style is built
+        for pc in ["a\u{ff03}", "\u{ff03}ab", "ab\u{ff03}", "#\u{ff1e}-"] {
+            let built = catch_unwind(AssertUnwindSafe(|| base().progress_chars(pc)));
+            if built.is_ok() {
+                return format!("{{\"found\": true, \"clause\": \"C14 progress characters of unequal width are rejected when the style is built\", \"input\": {{\"builder\": \"progress_chars\", \"arg\": {}}}, \"rerun\": \"replay style_build progress_chars\"}}", crate::js(pc));
+            }
+        }
+    }
     if only.is_none() || only == Some("tick_chars") {
         for tc in ["", "x", "ab", "abc"] {
             let built = catch_unwind(AssertUnwindSafe(|| base().tick_chars(tc)));
